@@ -48,6 +48,13 @@ Theorem C05_validator_rejects_live_handout :
   pool_check [PR 10 100; PG 10 200]%N = Some (1, LiveBufferHandedOut).
 Proof. vm_compute. reflexivity. Qed.
 
+Theorem C05_validator_rejects_shared_header :
+  pool_check [PR 10 100; PG 10 0]%N = Some (1, HeaderModifiedInPool).
+Proof. vm_compute. reflexivity. Qed.
+Theorem C05_validator_accepts_private_header :
+  pool_check [PG 7 70; PR 10 100; PG 10 100; PR 11 100; PG 11 100]%N = None.
+Proof. vm_compute. reflexivity. Qed.
+
 Example C05_nonvacuous :
   (* a 3-batch configuration with an empty batch, arrival order 2,0,1, f duplicating records *)
   pipeline_out nat [(2, [5;5]); (0, [1;1;2;2]); (1, [])] = flat_map (fun x => [x;x]) [1;2;5]
@@ -62,3 +69,5 @@ Print Assumptions C05_read_own_write.
 Print Assumptions C05_pool_trace_no_duplicate.
 Print Assumptions C05_validator_rejects_double_recycle.
 Print Assumptions C05_validator_rejects_live_handout.
+Print Assumptions C05_validator_rejects_shared_header.
+Print Assumptions C05_validator_accepts_private_header.
